@@ -485,6 +485,8 @@ def gen_attr(rng, v, a, P, mode, arrlit_exp=False):
         return lit("B", rng.random() < 0.6, each=bool(n) and rng.random() < 0.8)
     if T == "Boolean":
         return lit("B", rng.random() < 0.5, each=bool(n))
+    if len(v.get("dims") or []) == 2 and rng.random() < 0.8:
+        return g_mexp(rng, P, v["dims"][0], v["dims"][1])
     slots = [(p["name"], None, p["type"]) for p in P if not p.get("dims") and p["type"] != "Boolean"]
     for p in P:
         if p.get("dims") and len(p["dims"]) == 1:
@@ -502,6 +504,10 @@ def gen_attr(rng, v, a, P, mode, arrlit_exp=False):
         t = rng.choice(["R", "R", "I"])
         return lit(t, rlitval(rng, t))
     # arrays
+    if len(v.get("dims") or []) == 2:
+        if slots and r < 0.6:
+            return {"k": "exp", "e": gen_expr(rng, slots, integer, want_aff), "each": True}
+        return lit("R", rlitval(rng, "R"), each=True)
     if arrlit_exp and slots:
         es = [{"k": "exp", "e": gen_expr(rng, slots, integer, want_aff)} if rng.random() < 0.6
               else lit("I" if integer else "R", rlitval(rng, "I" if integer else "R")) for _ in range(n)]
@@ -533,8 +539,30 @@ def gen_attr(rng, v, a, P, mode, arrlit_exp=False):
     return lit(t, rlitval(rng, t), each=True)
 
 
+SIMPLIFY_STEPS = [{"eliminate_constant_assignments": True}, {"replace_parameter_expressions": True},
+                  {"replace_parameter_values": True}, {"replace_constant_values": True}, {"expand_mx": True},
+                  {"replace_parameter_expressions": True, "replace_parameter_values": True}]
+
+
+def g_mexp(rng, P, r, c):
+    mats = [q for q in P if q.get("dims") == [r, c]]
+    scal = [(q["name"], None, "Real") for q in P if not q.get("dims") and q["type"] == "Real"]
+    m = ["mp", rng.choice(mats)["name"]]
+    form = rng.choice(["id", "scale", "scale", "neg", "fill", "fill", "add"])
+    if form == "scale":
+        m = ["mscale", rconst(rng, False)[1], m]
+    elif form == "neg":
+        m = ["mneg", m]
+    elif form == "fill" and scal:
+        m = ["madd", m if rng.random() < 0.6 else ["mscale", rconst(rng, False)[1], m],
+             ["mfill", g_aff_p(rng, scal, 1, False), r, c]]
+    elif form == "add":
+        m = ["madd", m, ["mscale", rconst(rng, False)[1], ["mp", rng.choice(mats)["name"]]]]
+    return {"k": "mexp", "e": m}
+
+
 def gen_case(rng, kind):
-    BILINEAR[0] = kind == "single_bilinear"
+    BILINEAR[0] = {"single_bilinear": "bilinear", "multilinear": "multilinear"}.get(kind, False)
     try:
         return gen_case_(rng, kind)
     finally:
@@ -558,12 +586,13 @@ def gen_case_(rng, kind):
                 t = "I" if T == "Integer" else rng.choice(["R", "I"])
                 p["attrs"]["value"] = {"k": "elems", "es": [lit(t, rlitval(rng, t)) for _ in range(dims[0])]}
         else:
-            if r < 0.12 and kind in ("multi",) and any(not q.get("dims") and q["type"] == T for q in P):
+            if r < (0.6 if kind == "sequence" else 0.12) and kind in ("multi", "sequence") \
+                    and any(not q.get("dims") and q["type"] == T and q["attrs"].get("value", {}).get("k") == "lit" for q in P):
                 p["attrs"]["value"] = gen_attr(rng, p, "value", P, "mixed")
             elif r < 0.85 or kind == "subst":
                 t = "I" if T == "Integer" else rng.choice(["R", "I"])
                 p["attrs"]["value"] = lit(t, rlitval(rng, t))
-        if T != "Boolean" and len(dims) < 2 and kind not in ("single_affine", "single_mixed", "single_bilinear", "subst"):
+        if T != "Boolean" and len(dims) < 2 and kind not in ("single_affine", "single_mixed", "single_bilinear", "subst", "multilinear", "matrix2d"):
             for a in ("min", "max", "nominal"):
                 if rng.random() < 0.15:
                     p["attrs"][a] = gen_attr(rng, p, a, P, "mixed")
@@ -579,14 +608,24 @@ def gen_case_(rng, kind):
             P.append(mkparam("pa", "Real", [rng.choice([2, 3])]))
         else:
             P.append(mkparam("n", "Integer", []))
-    elif kind in ("multi", "known_shape", "subst"):
+    elif kind == "multilinear":
+        for nm in ["p", "q", "r", "s"][:rng.choice([3, 3, 4])]:
+            P.append(mkparam(nm, "Real", []))
+    elif kind == "matrix2d":
+        r_, c_ = rng.choice([(2, 3), (3, 2), (2, 2)])
+        P.append(mkparam("p", "Real", []))
+        P.append(mkparam("P", "Real", [r_, c_]))
+        if rng.random() < 0.4:
+            P.append(mkparam("Q", "Real", [r_, c_]))
+        rng.shuffle(P)
+    elif kind in ("multi", "known_shape", "subst", "sequence"):
         pool = [("p", "Real", []), ("q", "Real", []), ("n", "Integer", []), ("m", "Integer", []),
                 ("pa", "Real", [rng.choice([2, 3])]), ("flag", "Boolean", [])]
         if kind == "multi":
             pool += [("ka", "Integer", [2]), ("pm", "Real", [2, 2])]
         rng.shuffle(pool)
         chosen = pool[:rng.randint(2, 4)]
-        if kind != "multi":
+        if kind not in ("multi", "sequence"):
             chosen = [c for c in chosen if not c[2] or kind == "known_shape"] or [("p", "Real", [])]
             if not any(c[1] == "Real" and not c[2] for c in chosen):
                 chosen.append(("p", "Real", []))
@@ -597,19 +636,36 @@ def gen_case_(rng, kind):
              ("y", "alg", "Real", [pa_n]), ("z", "alg", "Real", [2]), ("i", "alg", "Integer", []),
              ("j", "alg", "Integer", [2]), ("b", "alg", "Boolean", []), ("u", "input", "Real", []),
              ("w", "alg", "Real", []), ("c", "constant", "Real", []), ("kc", "constant", "Integer", [])]
-    if kind == "single_bilinear":      # symbolic attributes on scalars only (repmat is not an allowed operation)
+    if kind in ("single_bilinear", "multilinear"):   # symbolic attributes on scalars only (repmat is not an allowed operation)
         vpool = [v for v in vpool if not v[3] or v[2] == "Integer"]
     rng.shuffle(vpool)
+    if kind == "matrix2d":
+        md = next(q["dims"] for q in P if len(q.get("dims") or []) == 2)
+        vpool = [("A", "alg", "Real", md)] + ([("B", "alg", "Real", md)] if rng.random() < 0.3 else []) + vpool[:rng.randint(0, 2)]
+        vpool += [None] * 5
     V = []
-    for nm, cat, T, dims in vpool[:rng.randint(2, 5)]:
+    for ent in vpool[:rng.randint(2, 5)]:
+        if ent is None:
+            continue
+        nm, cat, T, dims = ent
         v = {"name": nm, "cat": cat, "type": T, "dims": dims, "attrs": {}}
         if cat == "constant":
             v["attrs"]["value"] = lit("I" if T == "Integer" else "R", rlitval(rng, "I" if T == "Integer" else "R"))
         else:
             for a in (["start", "fixed"] if T == "Boolean" else ["min", "max", "start", "nominal", "fixed"]):
-                if rng.random() < (0.25 if a == "fixed" else 0.5):
+                if rng.random() < (0.25 if a == "fixed" else 0.7 if len(dims) == 2 else 0.5):
                     v["attrs"][a] = gen_attr(rng, v, a, P, mode)
         V.append(v)
+    if kind == "multilinear":
+        def nonaff(v):
+            return any(d is not None and d["k"] == "exp" and not syn_affine(d["e"]) for d in v["attrs"].values())
+        if not any(nonaff(v) for v in V):
+            tgt = next((v for v in V if v["type"] == "Real" and v["cat"] != "constant"), None)
+            if tgt is None:
+                tgt = {"name": "w", "cat": "alg", "type": "Real", "dims": [], "attrs": {}}
+                V = [v for v in V if v["name"] != "w"] + [tgt]
+            sl = [(q["name"], None, "Real") for q in P]
+            tgt["attrs"][rng.choice(["min", "max", "start", "nominal"])] = {"k": "exp", "e": gen_expr(rng, sl, False, False)}
     if kind == "known_shape":
         tgt = next((v for v in V if v["dims"] and v["type"] == "Real" and v["cat"] != "constant"), None)
         if tgt is None:
@@ -618,8 +674,18 @@ def gen_case_(rng, kind):
         tgt["attrs"][rng.choice(["min", "max", "start", "nominal"])] = gen_attr(rng, tgt, "max", P, "mixed", arrlit_exp=True)
     via, opts = "generate", {}
     r = rng.random()
+    steps = None
     if kind == "subst":
         via, opts = "transfer", {"replace_parameter_values": True}
+    elif kind == "sequence":
+        steps = rng.sample(SIMPLIFY_STEPS, rng.randint(1, 3))
+    elif kind == "multilinear":
+        opts = {"expand_mx": True} if r < 0.25 else {}
+    elif kind == "matrix2d":
+        if r < 0.65:
+            via, opts = "transfer", ({"expand_vectors": True, "expand_mx": True} if r < 0.3 else {"expand_vectors": True})
+        elif r < 0.8:
+            opts = {"expand_mx": True}
     elif r < 0.25:
         opts = {"expand_mx": True}
     elif r < 0.5:
@@ -627,6 +693,8 @@ def gen_case_(rng, kind):
         if rng.random() < 0.4 and not any(len(p.get("dims") or []) == 2 for p in P):
             opts = {"expand_vectors": True}
     case = {"kind": kind, "params": P, "vars": V, "via": via, "opts": opts}
+    if steps:
+        case["steps"] = steps
     case["text"] = render(case)
     # parameter vectors: declared values (when literal) + random ones
     pvs = []
@@ -910,7 +978,14 @@ def cq_tree(t, slot, env0):
         key = (t[1], t[2])
         if key in slot:
             return "(Par %d%%nat)" % slot[key]
-        return "(Cst %s)" % cq_qc(env0[key])                  # substituted parameter (replace_parameter_values)
+        # eliminated parameter (replace_parameter_values / replace_parameter_expressions): the harness substitutes
+        # its declared literal value or, for a dependent parameter, its declared expression
+        dv = env0["__decl__"].get(t[1])
+        if dv is not None and dv["k"] == "exp":
+            return cq_tree(dv["e"], slot, env0)
+        if key not in env0:
+            raise NoEncoding()
+        return "(Cst %s)" % cq_qc(env0[key])
     if k == "neg":
         return "(Neg %s)" % cq_tree(t[1], slot, env0)
     if k == "^":
@@ -932,14 +1007,26 @@ TAGS = {"int": "GInt", "float": "GFloat", "bool": "GBool", "_DefaultValue": "GDe
 VT = {"float": "TReal", "int": "TInt", "bool": "TBool"}
 
 
+class NoEncoding(Exception):
+    pass
+
+
 def encode(case, res):
+    try:
+        return encode_(case, res)
+    except NoEncoding:
+        return None
+
+
+def encode_(case, res):
     slot = {}
     pos = 0
+    PD = {p["name"]: p for p in case["params"]}
     for nm, shape in res["params"]:
         cnt = shape[0] * shape[1]
-        m = re.match(r"^(\w+)\[(\d+)\]$", nm)
+        m = elem_of(nm, PD) if nm not in PD else None
         if m:
-            slot[(m.group(1), int(m.group(2)) - 1)] = pos
+            slot[(m[0]["name"], m[1])] = pos
         elif cnt == 1:
             slot[(nm, None)] = pos
             slot[(nm, 0)] = pos
@@ -948,8 +1035,10 @@ def encode(case, res):
                 slot[(nm, i)] = pos + i
         pos += cnt
     E = envs(case, res)
+    E[0] = dict(E[0])
+    E[0]["__decl__"] = {p["name"]: p["attrs"].get("value") for p in case["params"]}
     loc = locate(case, res)
-    subst = bool(case["opts"].get("replace_parameter_values"))
+    subst = bool(case["opts"].get("replace_parameter_values")) or bool(case.get("steps"))
     cats, tags = [], []
     for cat in CATS:
         vs, ts = [], []
@@ -959,17 +1048,23 @@ def encode(case, res):
                 return None
             v, el = loc[key]
             branches, trow = [], []
+            moved = cat == "constants" and v["cat"] != "constant"
             for a in ATTRS:
                 d = v["attrs"].get(a)
                 tg = None
-                if d is None:
+                if moved and a == "value":
+                    # turned into a constant by eliminate_constant_assignments: the value comes from the equation
+                    term = "DElems [%s]" % "; ".join("ELit (LReal %s)" % cq_qc(Fr(x)) if x not in ("nan", "inf", "-inf") else "" for x in o["attrs"][a]["vals"][0])
+                    if "nan" in o["attrs"][a]["vals"][0] or "inf" in o["attrs"][a]["vals"][0] or "-inf" in o["attrs"][a]["vals"][0]:
+                        raise NoEncoding()
+                elif d is None:
                     term = "DNone"
                 else:
                     es = decl_elems(d, numel(v), v.get("dims") or [])
 
                     def cel(e):
                         return "ELit %s" % cq_lit(e) if e[0] == "lit" else "EExp %s" % cq_tree(e[1], slot, E[0])
-                    if el is not None and d["k"] in ("elems", "vec", "mat"):
+                    if el is not None and d["k"] in ("elems", "vec", "mat", "mexp"):
                         term = "DElems [%s]" % cel(es[el])
                     elif d["k"] == "lit":
                         term = "DLit %s" % cq_lit(es[0])
@@ -999,9 +1094,9 @@ def encode(case, res):
             continue
         vec = []
         for nm, shape in res["params"]:
-            m = re.match(r"^(\w+)\[(\d+)\]$", nm)
+            m = elem_of(nm, PD) if nm not in PD else None
             if m:
-                vec.append(fr(pv[m.group(1)][int(m.group(2)) - 1]))
+                vec.append(fr(pv[m[0]["name"]][m[1]]))
             else:
                 vec += [fr(x) for x in pv[nm]]
 
@@ -1119,9 +1214,10 @@ def run(ctx):
     ctx.notes["source_fingerprint"] = {"model.py": fp, "generator.py": fp2}
 
     # ---- cases
-    mix = [("single_affine", ctx.scaled(12, 150)), ("single_mixed", ctx.scaled(6, 90)), ("single_bilinear", ctx.scaled(8, 60)),
-           ("multi", ctx.scaled(18, 260)),
-           ("none", ctx.scaled(4, 30)), ("subst", ctx.scaled(8, 80)), ("known_shape", ctx.scaled(4, 30))]
+    mix = [("single_affine", ctx.scaled(9, 120)), ("single_mixed", ctx.scaled(5, 70)), ("single_bilinear", ctx.scaled(6, 60)),
+           ("multilinear", ctx.scaled(8, 80)), ("matrix2d", ctx.scaled(7, 70)), ("sequence", ctx.scaled(8, 80)),
+           ("multi", ctx.scaled(12, 200)),
+           ("none", ctx.scaled(3, 30)), ("subst", ctx.scaled(6, 70)), ("known_shape", ctx.scaled(3, 30))]
     cases = []
     try:
         cases += json.load(open(core.VERIF + "/corpus/C13/cases.json"))
@@ -1141,7 +1237,7 @@ def run(ctx):
     for i, (c, r) in enumerate(zip(cases, results)):
         dist["kinds"][c["kind"]] = dist["kinds"].get(c["kind"], 0) + 1
         dist["via"][c["via"]] = dist["via"].get(c["via"], 0) + 1
-        ok_ = json.dumps(c["opts"], sort_keys=True)
+        ok_ = json.dumps(c["opts"], sort_keys=True) + (" steps=" + json.dumps(c["steps"]) if c.get("steps") else "")
         dist["opts"][ok_] = dist["opts"].get(ok_, 0) + 1
         for v in c["params"] + c["vars"]:
             dist["var_types"][v["type"] + ("[]" if v.get("dims") else "")] = dist["var_types"].get(v["type"] + ("[]" if v.get("dims") else ""), 0) + 1
@@ -1155,16 +1251,19 @@ def run(ctx):
         if "exc" in r or "crash" in r:
             dist["impl_exceptions"] += 1
             continue
-        if r.get("rebuilt"):
+        obs = r["stages"] if "stages" in r else [r]
+        if any(o.get("rebuilt") for o in obs):
             dist["rebuilt"] += 1
         if any(d is not None and d["k"] != "lit" for v in c["params"] + c["vars"] for d in v["attrs"].values()):
-            nontrivial.add(c["text"])
-        e = encode(c, r)
-        if e is None:
-            skipped_points += 1
-            continue
-        enc.append(e)
-        idx.append(i)
+            nontrivial.add(c["text"] + json.dumps(c.get("steps")))
+        for o in obs:
+            e = encode(c, o)
+            if e is None:
+                skipped_points += 1
+                continue
+            enc.append(e)
+            idx.append(i)
+        r = obs[0]
         if r.get("attr_order") != ATTRS and not ctx.violations:
             core.report(ctx, "column-order", "CASADI_ATTRIBUTES is %s, documented column order is %s" % (r.get("attr_order"), ATTRS), {"input": c})
 
@@ -1176,7 +1275,7 @@ def run(ctx):
     if mism and not [v for v in ctx.violations if not v["no_input"]]:
         core.violation(ctx, "correspondence-broken",
                        {"correspondence": "Model/C13_metadata.v check_case vs generate()/variable_metadata_function",
-                        "input": cases[mism[0]], "observed_rebuilt": results[mism[0]].get("rebuilt")}, no_input=True)
+                        "input": cases[mism[0]]}, no_input=True)
 
     # ---- S4 known findings
     def still_fails(e):
